@@ -12,7 +12,9 @@
 (*                                                                         *)
 (* Each process runs a program of public Broker calls; a call is a stack   *)
 (* of frames (a callback that re-enters Send pushes a Send frame).         *)
-(*   Send    RLock; look up graph; RUnlock; run nodes with no broker lock  *)
+(*   Send    RLock; look up graph; RUnlock; run nodes with no broker lock; *)
+(*           thresholdLock.RLock; read thresholds; RUnlock                 *)
+(*   Thresh  Lock; thresholdLock.Lock; set; Unlock both  (threshold setters)*)
 (*   Write   Lock; mutate; Unlock            (Register*, RemovePipeline,   *)
 (*                                            threshold setters)           *)
 (*   Read    RLock; read; RUnlock            (getters, IsAny...)           *)
@@ -35,13 +37,17 @@ CONSTANTS Procs, Progs,        \* Progs[p] = sequence of ops in {"Send","Write",
           HoldReopen,          \* "none" | "R"
           HoldProcess,         \* "none" | "R"
           CbWrites,            \* callbacks that re-enter a writing call: subset of {"process"}
-          LeakOnFail           \* BOOLEAN
+          LeakOnFail,          \* BOOLEAN
+          LeakTL               \* BOOLEAN: a Send that finds its context done returns without releasing thresholdLock
 
-VARIABLES readers, writer, pendingW, gl, stack, pcnt
-vars == <<readers, writer, pendingW, gl, stack, pcnt>>
+VARIABLES readers, writer, pendingW, gl, stack, pcnt,
+          tlr, tlw           \* graph.thresholdLock of the event type: readers per process, writer
+tl == <<tlr, tlw>>
+vars == <<readers, writer, pendingW, gl, stack, pcnt, tlr, tlw>>
 
 Init == /\ readers = [p \in Procs |-> 0] /\ writer = "none" /\ pendingW = {} /\ gl = "none"
         /\ stack = [p \in Procs |-> <<>>] /\ pcnt = [p \in Procs |-> 1]
+        /\ tlr = [p \in Procs |-> 0] /\ tlw = "none"
 
 NoReaders == \A p \in Procs : readers[p] = 0
 Top(p) == stack[p][Len(stack[p])]
@@ -62,7 +68,15 @@ RUnlock(p) == readers' = [readers EXCEPT ![p] = @ - 1]
 WAnnounce(p) == writer = "none" /\ pendingW = {} /\ pendingW' = {p}
 WAcquire(p) == p \in pendingW /\ NoReaders /\ writer = "none" /\ writer' = p /\ pendingW' = {}
 
-SendStep(p) ==
+(* the tail of graph.process: the thresholds are read under thresholdLock.RLock *)
+SendTail(p) ==
+  /\ stack[p] # <<>> /\ Top(p).op = "Send"
+  /\ UNCHANGED <<readers, writer, pendingW, gl, pcnt>>
+  /\ \/ Top(p).pc = "thr" /\ tlw = "none" /\ tlr' = [tlr EXCEPT ![p] = @ + 1] /\ Set(p, "thrheld") /\ UNCHANGED tlw
+     \/ Top(p).pc = "thrheld" /\ tlr' = [tlr EXCEPT ![p] = @ - 1] /\ Pop(p) /\ UNCHANGED tlw
+     \/ Top(p).pc = "thrheld" /\ LeakTL /\ Pop(p) /\ UNCHANGED tl          \* early return between RLock and RUnlock
+
+SendBody(p) ==
   /\ stack[p] # <<>> /\ Top(p).op = "Send"
   /\ \/ Top(p).pc = "start" /\ RLock(p) /\ Set(p, "locked") /\ UNCHANGED <<writer, pendingW, gl, pcnt>>
      \/ /\ Top(p).pc = "locked" /\ (IF HoldProcess = "R" THEN UNCHANGED readers ELSE RUnlock(p))
@@ -74,13 +88,24 @@ SendStep(p) ==
            \/ /\ "process" \in CbWrites /\ Depth(p) < 2
               /\ NestOp(p, "inwrite", "Write") /\ UNCHANGED <<readers, gl>>
            \/ /\ ("process" \notin (CbSends \cup CbWrites) \/ Depth(p) >= 2)
-              /\ Pop(p) /\ UNCHANGED gl
+              /\ Set(p, "thr") /\ UNCHANGED gl
               /\ (IF HoldProcess = "R" THEN RUnlock(p) ELSE UNCHANGED readers)
      \/ /\ Top(p).pc = "inproc" /\ (IF GatedLock THEN gl' = "none" ELSE UNCHANGED gl)
-        /\ Pop(p) /\ UNCHANGED <<writer, pendingW, pcnt>>
+        /\ Set(p, "thr") /\ UNCHANGED <<writer, pendingW, pcnt>>
         /\ (IF HoldProcess = "R" THEN RUnlock(p) ELSE UNCHANGED readers)
-     \/ /\ Top(p).pc = "inwrite" /\ Pop(p) /\ UNCHANGED <<writer, pendingW, gl, pcnt>>
+     \/ /\ Top(p).pc = "inwrite" /\ Set(p, "thr") /\ UNCHANGED <<writer, pendingW, gl, pcnt>>
         /\ (IF HoldProcess = "R" THEN RUnlock(p) ELSE UNCHANGED readers)
+
+SendStep(p) == (SendBody(p) /\ UNCHANGED tl) \/ SendTail(p)
+
+(* SetSuccessThreshold / SetSuccessThresholdSinks: Broker write lock, then thresholdLock.Lock *)
+ThreshStep(p) ==
+  /\ stack[p] # <<>> /\ Top(p).op = "Thresh"
+  /\ \/ Top(p).pc = "start" /\ WAnnounce(p) /\ Set(p, "wait") /\ UNCHANGED <<readers, writer, gl, pcnt, tlr, tlw>>
+     \/ Top(p).pc = "wait" /\ WAcquire(p) /\ Set(p, "held") /\ UNCHANGED <<readers, gl, pcnt, tlr, tlw>>
+     \/ /\ Top(p).pc = "held" /\ tlw = "none" /\ \A q \in Procs : tlr[q] = 0
+        /\ tlw' = p /\ Set(p, "tl") /\ UNCHANGED <<readers, writer, pendingW, gl, pcnt, tlr>>
+     \/ /\ Top(p).pc = "tl" /\ tlw' = "none" /\ writer' = "none" /\ Pop(p) /\ UNCHANGED <<readers, pendingW, gl, pcnt, tlr>>
 
 WriteStep(p) ==
   /\ stack[p] # <<>> /\ Top(p).op = "Write"
@@ -129,11 +154,14 @@ ReopenStep(p) ==
 
 AllDone == \A p \in Procs : stack[p] = <<>> /\ pcnt[p] > Len(Progs[p])
 Finished == AllDone /\ UNCHANGED vars
-Next == (\E p \in Procs : Begin(p) \/ SendStep(p) \/ WriteStep(p) \/ FailStep(p) \/ ReadStep(p) \/ RemoveStep(p) \/ ReopenStep(p)) \/ Finished
+Next == \/ \E p \in Procs : (Begin(p) \/ WriteStep(p) \/ FailStep(p) \/ ReadStep(p) \/ RemoveStep(p) \/ ReopenStep(p)) /\ UNCHANGED tl
+        \/ \E p \in Procs : SendStep(p) \/ ThreshStep(p)
+        \/ Finished
 Spec == Init /\ [][Next]_vars /\ WF_vars(Next)
 
 (* C12: with TLC's deadlock check on, a reachable state without successor is a Broker call that never returns *)
 EventuallyAllReturn == <>[]AllDone
-LockSanity == /\ (writer # "none" => NoReaders)
+LockSanity == /\ (tlw # "none" => \A q \in Procs : tlr[q] = 0)
+              /\ (writer # "none" => NoReaders)
               /\ \A p \in Procs : readers[p] <= 2
 =============================================================================
